@@ -284,7 +284,8 @@ func (e *c08Env) cfgLines() {
 	tr.Line("lend.init", e.state()...)
 }
 
-// state returns the seven projection fields: counters, lends, borrows, totals, balances, prices, emergency flags.
+// state returns the nine projection fields: counters and block time, lends, borrows, totals, balances, prices, emergency flags,
+// accrual state of the borrows, accrual state of the lends.
 func (e *c08Env) state() []string {
 	ctx, k := e.ctx, e.app.LendKeeper
 	var ls, bs, ss, ks, ps []string
@@ -341,21 +342,49 @@ func (e *c08Env) state() []string {
 	}
 	sort.Slice(killed, func(i, j int) bool { return killed[i] < killed[j] })
 	sort.Slice(dep, func(i, j int) bool { return dep[i] < dep[j] })
-	return []string{u(k.GetUserLendIDCounter(ctx)) + "," + u(k.GetUserBorrowIDCounter(ctx)), strings.Join(ls, "|"), strings.Join(bs, "|"), strings.Join(ss, "|"), strings.Join(ks, "|"), strings.Join(ps, "|"), joinU(killed) + "/" + joinU(dep)}
+	// accrual state of every position: indices, last interaction time (Unix), stable rate / fractional reward tracker
+	var ab, al []string
+	for _, b := range k.GetAllBorrow(ctx) {
+		ab = append(ab, strings.Join([]string{u(b.ID), b.GlobalIndex.BigInt().String(), b.ReserveGlobalIndex.BigInt().String(), i64(b.LastInteractionTime.Unix()), b.StableBorrowRate.BigInt().String()}, ":"))
+	}
+	for _, l := range k.GetAllLend(ctx) {
+		trk := "0"
+		if tr, found := k.GetLendRewardTracker(ctx, l.ID); found {
+			trk = tr.RewardsAccumulated.BigInt().String()
+		}
+		al = append(al, strings.Join([]string{u(l.ID), l.GlobalIndex.BigInt().String(), i64(l.LastInteractionTime.Unix()), trk}, ":"))
+	}
+	return []string{u(k.GetUserLendIDCounter(ctx)) + "," + u(k.GetUserBorrowIDCounter(ctx)) + "," + i64(ctx.BlockTime().Unix()), strings.Join(ls, "|"), strings.Join(bs, "|"), strings.Join(ss, "|"), strings.Join(ks, "|"), strings.Join(ps, "|"), joinU(killed) + "/" + joinU(dep), strings.Join(ab, "|"), strings.Join(al, "|")}
 }
 
 // ---------------------------------------------------------------------------------------------- external values
 
 // reward returns newInterestPerInteraction of IterateLends (iter.go:12-40) for the lend on the given context.
 func (e *c08Env) reward(ctx sdk.Context, lendID uint64) sdk.Int {
+	r, _ := e.rewardRate(ctx, lendID)
+	return r
+}
+
+// rewardStr is the external input of a lend accrual as printed in the trace: `reward:lendAPR` — the reward is cross-checked, the
+// APR (a rate: property C18) is what the model consumes to recompute it.
+func (e *c08Env) rewardStr(ctx sdk.Context, lendID uint64) string {
+	r, apr := e.rewardRate(ctx, lendID)
+	return r.String() + ":" + apr.BigInt().String()
+}
+
+func (e *c08Env) rewardRate(ctx sdk.Context, lendID uint64) (sdk.Int, sdk.Dec) {
 	k := e.app.LendKeeper
 	r := sdk.ZeroInt()
+	rate := sdk.ZeroDec()
 	try(func() {
 		lend, found := k.GetLend(ctx, lendID)
 		if !found {
 			return
 		}
 		apr, _ := k.GetLendAPRByAssetIDAndPoolID(ctx, lend.PoolID, lend.AssetID)
+		if !apr.IsNil() {
+			rate = apr
+		}
 		per, _, _ := k.CalculateLendReward(ctx, lend.AmountIn.Amount.String(), apr, lend)
 		acc := per
 		if tr, found := k.GetLendRewardTracker(ctx, lendID); found {
@@ -365,17 +394,30 @@ func (e *c08Env) reward(ctx sdk.Context, lendID uint64) sdk.Int {
 			r = acc.TruncateInt()
 		}
 	})
-	return r
+	return r, rate
 }
 
 // extB runs the real IterateBorrow on ctx (the caller passes a throw-away or a running cache) and reports the
-// increments it applied to InterestAccumulated and to the reserve-pool tracker; "-" when it returned an error, "!" when it panicked.
+// increments it applied to InterestAccumulated and to the reserve-pool tracker, followed by the two RATES it used (borrow APR, reserve
+// rate — inputs of the model's own accrual computation): `dI:dR:apr:rr`; "-" when it returned an error, "!:apr:rr" when it panicked.
 func (e *c08Env) extB(ctx sdk.Context, borrowID uint64) string {
 	k := e.app.LendKeeper
 	before, found := k.GetBorrow(ctx, borrowID)
 	if !found {
 		return "-"
 	}
+	// the rates IterateBorrow is about to use (exported, read-only): reserve rate (its failure is IterateBorrow's error) and borrow APR
+	pair, _ := k.GetLendPair(ctx, before.PairID)
+	var rr, apr sdk.Dec
+	var rerr error
+	if p, _ := try(func() {
+		rr, rerr = k.GetReserveRate(ctx, pair.AssetOutPoolID, pair.AssetOut)
+		apr, _ = k.GetBorrowAPRByAssetID(ctx, pair.AssetOutPoolID, pair.AssetOut, before.IsStableBorrow)
+	}); p || rerr != nil || rr.IsNil() || apr.IsNil() {
+		e.tr.Count("ext:reserveRateErr")
+		return "-"
+	}
+	rates := ":" + apr.BigInt().String() + ":" + rr.BigInt().String()
 	resBefore := sdk.ZeroDec()
 	if tr, f := k.GetBorrowInterestTracker(ctx, borrowID); f {
 		resBefore = tr.ReservePoolInterest
@@ -384,7 +426,7 @@ func (e *c08Env) extB(ctx sdk.Context, borrowID uint64) string {
 	panicked, _ := try(func() { _, _, err = k.IterateBorrow(ctx, borrowID) })
 	if panicked {
 		e.tr.Count("ext:iterBorrowPanic")
-		return "!"
+		return "!" + rates
 	}
 	if err != nil {
 		e.tr.Count("ext:iterBorrowErr")
@@ -397,7 +439,7 @@ func (e *c08Env) extB(ctx sdk.Context, borrowID uint64) string {
 	if dI.IsPositive() {
 		e.tr.Count("ext:interest>0")
 	}
-	return dI.BigInt().String() + ":" + dR.BigInt().String()
+	return dI.BigInt().String() + ":" + dR.BigInt().String() + rates
 }
 
 func (e *c08Env) probe() sdk.Context { c, _ := e.ctx.CacheContext(); return c }
@@ -460,33 +502,33 @@ func (e *c08Env) emit(name string, outcome string, args ...string) {
 
 func (e *c08Env) opLend(usr c08Acct, asset uint64, denom string, amt sdk.Int, pool, app uint64) string {
 	k := e.app.LendKeeper
-	r := sdk.ZeroInt()
+	r := "0:0"
 	if id, found := k.GetLendIDForAssetIDPoolID(e.ctx, usr.addr.String(), asset, pool); found && k.HasLendForAddressByAsset(e.ctx, usr.addr.String(), asset, pool) {
-		r = e.reward(e.ctx, id)
+		r = e.rewardStr(e.ctx, id)
 	}
 	out := e.deliver(&lendtypes.MsgLend{Lender: usr.addr.String(), AssetId: asset, Amount: sdk.Coin{Denom: denom, Amount: amt}, PoolId: pool, AppId: app})
-	e.emit("lend", out, u(usr.num), u(asset), e.did(denom), amt.String(), u(pool), u(app), r.String())
+	e.emit("lend", out, u(usr.num), u(asset), e.did(denom), amt.String(), u(pool), u(app), r)
 	return out
 }
 
 func (e *c08Env) opDeposit(usr c08Acct, lendID uint64, denom string, amt sdk.Int) string {
-	r := e.reward(e.ctx, lendID)
+	r := e.rewardStr(e.ctx, lendID)
 	out := e.deliver(&lendtypes.MsgDeposit{Lender: usr.addr.String(), LendId: lendID, Amount: sdk.Coin{Denom: denom, Amount: amt}})
-	e.emit("deposit", out, u(usr.num), u(lendID), e.did(denom), amt.String(), r.String())
+	e.emit("deposit", out, u(usr.num), u(lendID), e.did(denom), amt.String(), r)
 	return out
 }
 
 func (e *c08Env) opWithdraw(usr c08Acct, lendID uint64, denom string, amt sdk.Int) string {
-	r := e.reward(e.ctx, lendID)
+	r := e.rewardStr(e.ctx, lendID)
 	out := e.deliver(&lendtypes.MsgWithdraw{Lender: usr.addr.String(), LendId: lendID, Amount: sdk.Coin{Denom: denom, Amount: amt}})
-	e.emit("withdraw", out, u(usr.num), u(lendID), e.did(denom), amt.String(), r.String())
+	e.emit("withdraw", out, u(usr.num), u(lendID), e.did(denom), amt.String(), r)
 	return out
 }
 
 func (e *c08Env) opCloseLend(usr c08Acct, lendID uint64) string {
-	r := e.reward(e.ctx, lendID)
+	r := e.rewardStr(e.ctx, lendID)
 	out := e.deliver(&lendtypes.MsgCloseLend{Lender: usr.addr.String(), LendId: lendID})
-	e.emit("closeLend", out, u(usr.num), u(lendID), r.String())
+	e.emit("closeLend", out, u(usr.num), u(lendID), r)
 	return out
 }
 
@@ -522,12 +564,12 @@ func (e *c08Env) opBorrow(usr c08Acct, lendID, pairID uint64, stable bool, in, o
 
 func (e *c08Env) opBorrowAlternate(usr c08Acct, asset, pool uint64, in sdk.Coin, pairID uint64, stable bool, out sdk.Coin, app uint64) string {
 	k := e.app.LendKeeper
-	r := sdk.ZeroInt()
+	r := "0:0"
 	e1, e2 := "-", "-"
 	c := e.probe()
 	try(func() {
 		if id, found := k.GetLendIDForAssetIDPoolID(c, usr.addr.String(), asset, pool); found && k.HasLendForAddressByAsset(c, usr.addr.String(), asset, pool) {
-			r = e.reward(c, id)
+			r = e.rewardStr(c, id)
 			if err := k.DepositAsset(c, usr.addr.String(), id, in); err != nil {
 				return
 			}
@@ -536,7 +578,7 @@ func (e *c08Env) opBorrowAlternate(usr c08Acct, asset, pool uint64, in sdk.Coin,
 		e1, e2 = e.borrowExt(c, usr, pairID, sdk.Coin{Denom: e.denomOf[rates.CAssetID], Amount: in.Amount})
 	})
 	res := e.deliver(&lendtypes.MsgBorrowAlternate{Lender: usr.addr.String(), AssetId: asset, PoolId: pool, AmountIn: in, PairId: pairID, IsStableBorrow: stable, AmountOut: out, AppId: app})
-	e.emit("borrowAlt", res, u(usr.num), u(asset), u(pool), e.did(in.Denom), in.Amount.String(), u(pairID), c08b(stable), e.did(out.Denom), out.Amount.String(), u(app), r.String(), e1, e2)
+	e.emit("borrowAlt", res, u(usr.num), u(asset), u(pool), e.did(in.Denom), in.Amount.String(), u(pairID), c08b(stable), e.did(out.Denom), out.Amount.String(), u(app), r, e1, e2)
 	return res
 }
 
@@ -572,7 +614,7 @@ func (e *c08Env) opRepayWithdraw(usr c08Acct, borrowID uint64) string {
 	k := e.app.LendKeeper
 	c := e.probe()
 	ext := e.extB(c, borrowID)
-	r := sdk.ZeroInt()
+	r := "0:0"
 	c2 := e.probe()
 	try(func() {
 		b, found := k.GetBorrow(c2, borrowID)
@@ -580,11 +622,11 @@ func (e *c08Env) opRepayWithdraw(usr c08Acct, borrowID uint64) string {
 			return
 		}
 		if err := k.CloseBorrow(c2, usr.addr.String(), borrowID); err == nil {
-			r = e.reward(c2, b.LendingID)
+			r = e.rewardStr(c2, b.LendingID)
 		}
 	})
 	res := e.deliver(&lendtypes.MsgRepayWithdraw{Borrower: usr.addr.String(), BorrowId: borrowID})
-	e.emit("repayWithdraw", res, u(usr.num), u(borrowID), ext, r.String())
+	e.emit("repayWithdraw", res, u(usr.num), u(borrowID), ext, r)
 	return res
 }
 
@@ -605,8 +647,7 @@ func (e *c08Env) opCalc(usr c08Acct) string {
 			}
 		}
 		for _, m := range maps {
-			r := e.reward(c, m.LendId)
-			lparts = append(lparts, u(m.LendId)+"="+r.String())
+			lparts = append(lparts, u(m.LendId)+"="+e.rewardStr(c, m.LendId))
 			_ = k.MsgCalculateLendRewards(c, usr.addr.String(), m.LendId)
 		}
 	})
@@ -658,6 +699,16 @@ func (e *c08Env) opLiquidate(borrowID uint64) bool {
 	if !found || before.IsLiquidated {
 		return false
 	}
+	// the rates CalculateBorrowInterestForLiquidation uses (inputs of the model's accrual), read before the call
+	rates := "-"
+	try(func() {
+		pair, _ := k.GetLendPair(e.ctx, before.PairID)
+		rr, err := k.GetReserveRate(e.ctx, pair.AssetOutPoolID, pair.AssetOut)
+		apr, err2 := k.GetBorrowAPRByAssetID(e.ctx, pair.AssetOutPoolID, pair.AssetOut, before.IsStableBorrow)
+		if err == nil && err2 == nil {
+			rates = apr.BigInt().String() + ":" + rr.BigInt().String()
+		}
+	})
 	cctx, write := e.ctx.CacheContext()
 	var err error
 	panicked, pmsg := try(func() { err = e.app.NewliqKeeper.LiquidateIndividualBorrow(cctx, borrowID, "", false) })
@@ -677,7 +728,7 @@ func (e *c08Env) opLiquidate(borrowID uint64) bool {
 		return false
 	}
 	write()
-	e.emit("handover", "ok", u(borrowID), after.InterestAccumulated.BigInt().String())
+	e.emit("handover", "ok", u(borrowID), after.InterestAccumulated.BigInt().String(), rates)
 	return true
 }
 
